@@ -230,6 +230,10 @@ func (p *c20) runOptDiff(c *verifsim.Chooser, st *Stats, render bool) *Outcome {
 	if res.sig == "" {
 		return o
 	}
+	if res.frontEnds {
+		o.violate("C20/run-vs-execute", res.sig, "%s", res.detail)
+		return o
+	}
 	if strings.Contains(text, "√") {
 		// is the difference the known one - the optimizer folds the square
 		// root of a constant perfect square into an INTEGER, the VM computes
@@ -250,6 +254,7 @@ func (p *c20) runOptDiff(c *verifsim.Chooser, st *Stats, render bool) *Outcome {
 
 type optDiffResult struct {
 	sig, detail string
+	frontEnds   bool // the difference is between Run and Execute, not between optimizer settings
 	prepFailed  bool
 	capped      bool
 	ran         int
@@ -261,15 +266,22 @@ type optDiffResult struct {
 // optDiffPlay prepares text with and without the optimizer and plays the
 // history against both; sig is empty if no caller-visible difference showed.
 func optDiffPlay(text string, setX object.Object, plan []*c07Run, names []string, render bool) (res optDiffResult) {
-	sides := [2]*evalSide{}
-	var perr [2]error
-	for i, opt := range []bool{true, false} {
+	// (a third evaluator, optimized, answers every run through the other
+	// front end: Run where the two use Execute and the other way round)
+	sides := [3]*evalSide{}
+	var perr [3]error
+	for i, opt := range []bool{true, false, true} {
 		s, err, esc := newSide(text, opt)
 		if esc != nil {
 			// (C08's business; both settings must agree all the same)
 			err = fmt.Errorf("panic: %v", esc.Value)
 		}
 		sides[i], perr[i] = s, err
+	}
+	if perr[0] == nil && perr[2] != nil {
+		res.sig = "Prepare"
+		res.detail = fmt.Sprintf("a second evaluator for the same text failed to prepare: %v", perr[2])
+		return
 	}
 	if (perr[0] != nil) != (perr[1] != nil) {
 		res.sig = "Prepare"
@@ -289,10 +301,16 @@ func optDiffPlay(text string, setX object.Object, plan []*c07Run, names []string
 		}
 	}
 	for i, r := range plan {
-		var rs [2]Result
+		var rs [3]Result
 		for j, s := range sides {
 			s.arm(r)
-			rs[j] = s.exec(r)
+			if j == 2 {
+				other := *r
+				other.UseRun = !r.UseRun
+				rs[j] = s.exec(&other)
+			} else {
+				rs[j] = s.exec(r)
+			}
 			if s.ctx.HitCap || s.h.Runaway {
 				res.capped = true
 			}
@@ -329,7 +347,33 @@ func optDiffPlay(text string, setX object.Object, plan []*c07Run, names []string
 		if res.sig != "" {
 			return
 		}
+		// Run against Execute (same program, same object, same host answers)
+		if o := rs[2]; true {
+			otherWhat := "Run"
+			if r.UseRun {
+				otherWhat = "Execute"
+			}
+			switch {
+			case (a.Escaped != nil) != (o.Escaped != nil):
+				res.sig, res.detail = "front ends: panic", fmt.Sprintf("on %s %s gives %s and %s gives %s\nscript:\n%s", r.ObjDesc, what, a.String(), otherWhat, o.String(), text)
+			case a.Failed != o.Failed:
+				res.sig, res.detail = "front ends: fails="+fmt.Sprint(a.Failed)+"/"+fmt.Sprint(o.Failed), fmt.Sprintf("on %s %s gives %s and %s gives %s\nscript:\n%s", r.ObjDesc, what, a.String(), otherWhat, o.String(), text)
+			case !a.Failed && a.Truth != o.Truth:
+				res.sig, res.detail = "front ends: truth", fmt.Sprintf("on %s %s gives %s and %s gives %s\nscript:\n%s", r.ObjDesc, what, a.String(), otherWhat, o.String(), text)
+			case joinTrace(sides[0].h.Trace) != joinTrace(sides[2].h.Trace):
+				res.sig, res.detail = "front ends: host calls", fmt.Sprintf("on %s %s calls [%s] and %s calls [%s]\nscript:\n%s", r.ObjDesc, what, joinTrace(sides[0].h.Trace), otherWhat, joinTrace(sides[2].h.Trace), text)
+			}
+			if res.sig != "" {
+				res.frontEnds = true
+				return
+			}
+		}
 		for _, n := range names {
+			if vc := show(sides[2].e.GetVariable(n)); vc != show(sides[0].e.GetVariable(n)) {
+				res.sig, res.frontEnds = "front ends: variable after run", true
+				res.detail = fmt.Sprintf("after the run on %s variable %s is %s via one front end and %s via the other\nscript:\n%s", r.ObjDesc, n, show(sides[0].e.GetVariable(n)), vc, text)
+				return
+			}
 			va, vb := show(sides[0].e.GetVariable(n)), show(sides[1].e.GetVariable(n))
 			if va != vb {
 				diff("variable after run", "after %s on %s variable %s is %s with the optimizer and %s without", what, r.ObjDesc, n, va, vb)
